@@ -266,7 +266,7 @@ package grpcgcp
 //@   ensures [C04.picker-ok] gb.state != connectivity.TransientFailure ==> gb.picker is *gcpPicker && gb.picker.(*gcpPicker).gb == gb
 //@   ensures [C02.snapshot-ready] gb.state != connectivity.TransientFailure ==> forall x in gb.picker.(*gcpPicker).scRefs :: x != nil && x.subConn in gb.scStates && gb.scStates[x.subConn] == connectivity.Ready && gb.scRefs[x.subConn] == x
 //@   ensures [C02.snapshot-all] gb.state != connectivity.TransientFailure ==> forall sc, st in gb.scStates :: st == connectivity.Ready ==> exists j, x in gb.picker.(*gcpPicker).scRefs :: x == gb.scRefs[sc]
-//@   ensures [C10,C02 picker-list-private] gb.state != connectivity.TransientFailure ==> mine(gb.picker.(*gcpPicker).scRefs)
+//@   callsite newGCPPicker#1 asserts [C10,C02 picker-list-private] mine($arg0)
 //@   ensures gb.picker != nil
 //@   loop 1 invariant forall x in readyRefs :: x != nil && isa(x) && x.subConn in gb.scStates && gb.scStates[x.subConn] == connectivity.Ready && gb.scRefs[x.subConn] == x
 //@   loop 1 invariant len(readyRefs) > 0 ==> len(gb.scRefList) > 0
@@ -398,6 +398,8 @@ package grpcgcp
 //@ guards gcpClientStream.Mutex: chanclosed
 //@ typeinv gcpClientStream := this.streamer != nil && this.ready != nil && this.ctx != nil
 //@ inv gcpClientStream.Mutex S1 [C12] := closed(this.ready) == (this.initStreamErr != nil || this.ClientStream != nil)
+// S2: once the stream exists no creation error is pending (a failed first attempt followed by a successful one)
+//@ inv gcpClientStream.Mutex S2 [C12] := this.ClientStream != nil ==> this.initStreamErr == nil
 //@ mono gcpClientStream.Mutex [C12] := old(closed(this.ready)) ==> closed(this.ready)
 //@
 //@ import grpc "google.golang.org/grpc"
@@ -452,7 +454,12 @@ package grpcgcp
 //@   interruptible_by cs.ctx
 // leaves the wait only because the stream exists / failed (ready closed), or because the call's context ended
 //@   ensures [C12.recv-ctx] $recvCalls == old($recvCalls) || selected() == cs.ready
+// once created, every receive reaches the stream: a call that finds the stream created (or its creation failed) on entry does not leave through the context branch
+//@   ensures [C12.created-reaches-stream] entry(closed(cs.ready)) ==> selected() == cs.ready
 //@   ensures [C12.recv-delegates] selected() == ctx_done(cs.ctx) || ($ret0 == cs.initStreamErr && cs.initStreamErr != nil) || (cs.ClientStream != nil && $recvCalls[cs.ClientStream] == old($recvCalls)[cs.ClientStream] + 1)
+//@ func (cs *gcpClientStream) Header
+//@   interruptible_by cs.ctx
+//@   ensures [C12.created-reaches-stream] entry(closed(cs.ready)) ==> selected() == cs.ready
 
 // ---------------------------------------------------------------- GCPMultiEndpoint (C10, C15, C16)
 
